@@ -1587,6 +1587,18 @@ func buildSelectFieldsWithExpressions(fields []Field) (
 				for _, aggField := range aggFields {
 					selectFields[aggField.Placeholder] = aggField.AggType
 					fieldMap[aggField.Placeholder] = aggField.InputField
+					// An expression argument, sum(CASE ... END) * 100 / count(*), is
+					// evaluated per row like the argument of the same call selected on
+					// its own. Extra arguments of a multi-argument aggregate are not
+					// an expression.
+					n, argExpr, argFields := extractAggFieldWithExpression(aggField.FullCall, aggField.FuncName)
+					if argExpr != "" && len(splitTopLevelCommas(argExpr)) == 1 {
+						expressions[aggField.Placeholder] = types.FieldExpression{
+							Field:      n,
+							Expression: argExpr,
+							Fields:     argFields,
+						}
+					}
 				}
 
 				// Add post-aggregation expression
